@@ -102,6 +102,84 @@ fn c09_resolve_two_scopes() {
     }
 }
 
+/// O09.res3 [thorough tier]  the same contract as O09.res for THREE open scopes of 0..=2 names each: the specification
+/// is written as the generic fold the Verus spec function slot_of unrolls to.
+#[kani::proof]
+#[kani::unwind(6)]
+fn c09_resolve_three_scopes() {
+    let n: [usize; 3] = [kani::any(), kani::any(), kani::any()];
+    kani::assume(n[0] <= 2 && n[1] <= 2 && n[2] <= 2);
+    let k: [[bool; 2]; 3] = [[kani::any(), kani::any()], [kani::any(), kani::any()], [kani::any(), kani::any()]];
+    let mut scopes: Vec<Vec<String>> = Vec::with_capacity(3);
+    let mut si = 0;
+    while si < 3 {
+        let mut sc: Vec<String> = Vec::with_capacity(2);
+        if n[si] > 0 { sc.push(name_of(k[si][0])); }
+        if n[si] > 1 { sc.push(name_of(k[si][1])); }
+        scopes.push(sc);
+        si += 1;
+    }
+    let ctx = ManuallyDrop::new(Context { scope: Scope::Global, max_size: 0, symbols: scopes });
+    let r = ctx.resolve("a");
+    // slot_of: innermost scope with a declaration of `a`, last declaration there, offset = names in the scopes below
+    let mut want: Option<usize> = None;
+    let mut below = 0;
+    let mut si = 0;
+    while si < 3 {
+        let here = if n[si] > 1 && k[si][1] { Some(1) } else if n[si] > 0 && k[si][0] { Some(0) } else { None };
+        if let Some(j) = here { want = Some(below + j); }
+        below += n[si];
+        si += 1;
+    }
+    match (r, want) {
+        (Some(s), Some(w)) => assert!(s.index as usize == w && s.scope == Scope::Global),
+        (None, None) => {}
+        _ => assert!(false),
+    }
+}
+
+/// O09.1k [bounded twin of O09.1w: N contexts - global, (an enclosing function f,) the current function - each with
+/// one scope of 0..=1 names over {a, b}]  SymbolTable::resolve on the real code, whatever its syntactic form: the
+/// current context first, then the GLOBAL context, NEVER the enclosing function's context; the table is unchanged.
+macro_rules! table_resolve_twin { ($name:ident, $n:expr) => {
+    #[kani::proof]
+    #[kani::unwind(6)]
+    fn $name() { table_resolve_contract($n); }
+} }
+table_resolve_twin!(c09_table_resolve_twin_1, 1);
+table_resolve_twin!(c09_table_resolve_twin_2, 2);
+table_resolve_twin!(c09_table_resolve_twin_3, 3);
+fn ctx_with(scope: Scope, has: bool, is_a: bool) -> Context {
+    let mut sc: Vec<String> = Vec::with_capacity(1);
+    if has { sc.push(name_of(is_a)); }
+    let mut scopes = Vec::with_capacity(1);
+    scopes.push(sc);
+    Context { scope, max_size: 0, symbols: scopes }
+}
+fn table_resolve_contract(n_ctx: usize) {
+    let has: [bool; 3] = kani::any();
+    let is_a: [bool; 3] = kani::any();
+    let mut contexts: Vec<Context> = Vec::with_capacity(3);
+    contexts.push(ctx_with(Scope::Global, has[0], is_a[0]));
+    if n_ctx >= 2 { contexts.push(ctx_with(Scope::Local, has[1], is_a[1])); }
+    if n_ctx >= 3 { contexts.push(ctx_with(Scope::Local, has[2], is_a[2])); }
+    let mut t = ManuallyDrop::new(SymbolTable { contexts });
+    let r = t.resolve("a");
+    let cur = n_ctx - 1;
+    let in_cur = has[cur] && is_a[cur];
+    let in_global = has[0] && is_a[0];
+    kani::cover!(in_cur);
+    kani::cover!(!in_cur && !in_global);
+    if in_cur {
+        assert!(matches!(r, Some(s) if s.index == 0 && (s.scope == Scope::Global) == (cur == 0)));
+    } else if n_ctx > 1 && in_global {
+        assert!(matches!(r, Some(s) if s.index == 0 && s.scope == Scope::Global));
+    } else {
+        assert!(r.is_none());
+    }
+    assert!(t.contexts.len() == n_ctx);
+}
+
 // Sequences of define calls (block / function scenarios on the real SymbolTable) were tried as harnesses
 // c09_block_scope_restores and c09_function_contexts and do NOT finish in CBMC (2+2 declarations: out of memory;
 // three declarations in nested contexts: > 600 s). The composition is done by the Verus lemmas of unit c09_names.
